@@ -9,6 +9,7 @@ import Rare.Spec.C07Mode
 import Rare.Proofs.C07NumF64Arith
 import Rare.Proofs.C07AccOpt
 import Rare.Proofs.C07GroupKey
+import Rare.Proofs.C07NumF64Err
 import Rare.Gen.C07
 /-!
 C07 – Aggregators compute the exact fold of their sample history.
@@ -1103,6 +1104,50 @@ theorem num_f64_variance_nonneg (keep : Bool) (l : List F64) (hn : l.length ≤ 
     rw [le_iff_key]; exact ⟨hz, hv.1, by rw [hk]; exact hv.2⟩
   exact ⟨conv _ a, conv _ b, conv _ c, c.1⟩
 
+/-- THE STANDARD MODEL OF FLOATING-POINT ARITHMETIC holds for the software binary64 the aggregator is modelled on: every
+correctly rounded result `fl q` (each `+ - * /` of finite operands is `ofRatS _ (exact result)`) that is finite
+differs from the exact rational `q` by at most `|q|·u + η` AND by at most `|fl q|·u + η`, with the unit roundoff
+`u = 2^-53` and `η = 2^-1075` (half the smallest subnormal; it only matters when the result is subnormal).  All `q`,
+no magnitude restriction other than "the result did not overflow". -/
+theorem num_f64_rounding_error (s : Bool) (q : Rat) (hf : (F64.ofRatS s q).isFinite = true) :
+    let r := (F64.ofRatS s q).toRat
+    (r - q ≤ F64.absRat q * uF + F64.etaF ∧ q - r ≤ F64.absRat q * uF + F64.etaF) ∧
+    (r - q ≤ F64.absRat r * uF + F64.etaF ∧ q - r ≤ F64.absRat r * uF + F64.etaF) ∧
+    uF = 1 / ((2 ^ 53 : Nat) : Rat) ∧ F64.etaF = 1 / (2 * ((2 ^ 1074 : Nat) : Rat)) := by
+  intro r
+  obtain ⟨a, b⟩ := F64.ofRatS_err s q hf
+  simp only [div_P53] at a b
+  refine ⟨a, b, rfl, ?_⟩
+  unfold F64.etaF; rw [F64.two1074_eq]
+
+/-- ERROR OF ONE WELFORD MEAN UPDATE (the float error bound of the running mean, per step).  For a state that has seen
+at least one and fewer than 2^53 samples, with a finite mean, and a finite sample, both of magnitude at most 2^1021:
+the computed difference `d = val − oldMean` and the new mean are finite, and the new mean differs from the EXACT update
+`oldMean + (val − oldMean)/n` of the same state by at most
+
+    (|mean'|·u + η) + (|d/n|·u + η) + (|val − oldMean|·u + η)/n          (u = 2^-53, η = 2^-1075)
+
+– one term per rounding (`+`, `/`, `−`).  With all magnitudes ≤ M this is about `(1 + 4/n)·u·M`, so over a run the
+deviation from the exact mean grows at most linearly, ≈ `n·u·max|x|` (the accumulated bound is not formalised: the
+recurrence `e_n ≤ (1−1/n)·e_{n−1} + step bound` is, through `welford_exact`, the remaining arithmetic).  The first
+sample is exact (`num_f64_constant_exact` with n = 0). -/
+theorem num_f64_mean_step_error (keep : Bool) (s : NumF) (x : F64) (hk : 1 ≤ s.samples) (hn : s.samples + 1 ≤ 9007199254740992)
+    (hm : s.mean.isFinite = true) (hx : x.isFinite = true)
+    (bm : -((2 ^ 1021 : Nat) : Rat) ≤ s.mean.toRat ∧ s.mean.toRat ≤ ((2 ^ 1021 : Nat) : Rat))
+    (bx : -((2 ^ 1021 : Nat) : Rat) ≤ x.toRat ∧ x.toRat ≤ ((2 ^ 1021 : Nat) : Rat)) :
+    let s' := NumF.samplef keep s x
+    let n : Rat := ((s.samples + 1 : Nat) : Rat)
+    let d := F64.sub x s.mean
+    let exact := s.mean.toRat + (x.toRat - s.mean.toRat) / n
+    let B := (F64.absRat s'.mean.toRat * uF + F64.etaF) + (F64.absRat (d.toRat / n) * uF + F64.etaF) +
+      (F64.absRat (x.toRat - s.mean.toRat) * uF + F64.etaF) / n
+    s'.samples = s.samples + 1 ∧ s'.mean.isFinite = true ∧ d.isFinite = true ∧
+    s'.mean.toRat - exact ≤ B ∧ exact - s'.mean.toRat ≤ B := by
+  intro s' n d exact B
+  rw [← bigB_eq] at bm bx
+  obtain ⟨a, b, c, e⟩ := mean_step_error_full keep s x hk hn hm hx bm bx
+  exact ⟨rfl, a, b, c, e⟩
+
 /-! ### non-vacuity of the float theorems -/
 
 /-- "1.5", "x", "-2", "1e999" (range error), "0x1p-1", "nan". -/
@@ -1127,6 +1172,9 @@ example : allRepB (Numerical.new ratOps) ([F64.ofRat (1/10), F64.ofRat (2/10), F
 example : ∀ x ∈ exInts, x.isFinite = true ∧ -((2 ^ 1021 : Nat) : Rat) ≤ x.toRat ∧ x.toRat ≤ ((2 ^ 1021 : Nat) : Rat) := by
   decide +kernel
 /-- a sorted arrangement with both zeros and a NaN: `[NaN, -0, +0, 1]` and `[NaN, +0, -0, 1]` are both sorted. -/
+example : 1 ≤ (runFv true exInts).samples ∧ (runFv true exInts).samples + 1 ≤ 9007199254740992 ∧
+    (runFv true exInts).mean.isFinite = true ∧ (F64.ofRat (1/10)).isFinite = true := by decide +kernel
+example : (F64.ofRatS false (1/10)).isFinite = true ∧ (F64.ofRatS false (1/10)).toRat ≠ 1/10 := by decide +kernel
 def exMixed : List F64 := [F64.ofInt 1, F64.zero true, F64.nan, F64.zero false]
 example : IsSortedF false [F64.nan, F64.zero true, F64.zero false, F64.ofInt 1] exMixed ∧
     IsSortedF false [F64.nan, F64.zero false, F64.zero true, F64.ofInt 1] exMixed := by
